@@ -52,10 +52,18 @@ ST_E = st.sampled_from([1, 1, 2, 3])
 @st.composite
 def world_spec(draw, connected=True, prod=False, chainy=False, nunits=(2, 5), keep=7, min_ext=0, orphans=False, rings=False):
     fams = []
+    twins = []
     rat = _rat()
     for dim in DIMS:
         n = draw(_int(*nunits))
         sizes = [draw(rat) for _ in range(n)]
+        for i in range(1, n):
+            if draw(_int(0, 9)) < 2:
+                # a near-twin of an earlier unit (1.0000000003 of it, like the survey foot and the
+                # foot): whole numbers of one are almost, but not, whole numbers of the other
+                j, k, e = draw(_int(0, i - 1)), draw(_int(1, 9)), draw(_int(6, 13))
+                sizes[i] = [sizes[j][0] * (10**e + k), sizes[j][1] * 10**e]
+                twins.append([f"{dim[0].upper()}{i}", f"{dim[0].upper()}{j}"])
         edges = []
         if rings and n >= 4 and draw(_int(0, 9)) < 4:
             # a ring of k units plus spurs hanging off ring members, declared in drawn order
@@ -92,7 +100,7 @@ def world_spec(draw, connected=True, prod=False, chainy=False, nunits=(2, 5), ke
             peers = [i for i, x in enumerate(ext) if x.get("orphan") and x["k"] == item["k"]]
             item["orphan_to"] = _choose(draw, peers) if peers and draw(ST_BOOL) else None
         ext.append(item)
-    spec = {"fams": fams, "ext": ext}
+    spec = {"fams": fams, "ext": ext, "twins": twins}
     # how the declarations are written: ratios as Decimal, the defined unit under a prefix
     # ((Kilo * a).equals(...)); both are ordinary uses of the public API
     spec["decimal_ratios"] = draw(_int(0, 9)) < 2
@@ -279,6 +287,15 @@ def draw_dok_query(draw, spec, magnitudes, third=False):
     from .convgen import shuffle
 
     names = unit_names(spec)
+    twins = [t for t in spec.get("twins", []) if isinstance(t, list) and len(t) == 2 and t[0] in names and t[1] in names]
+    if twins and draw(_int(0, 9)) < 3:
+        # whole numbers of a unit in its near-twin, in either direction
+        a, b = shuffle(draw, _choose(draw, twins))
+        e = draw(ST_E) * draw(ST_SIGN)
+        q = {"src": [["", a, e]], "dst": [["", b, e]], "mag": {"t": "int", "v": draw(_int(1, 1200)) * draw(ST_SIGN)}}
+        if third:
+            q["dst2"] = [[draw(ST_PFX), _choose(draw, sorted(n for n, dk in names.items() if dk == names[a])), e]]
+        return q
     signs = {d: draw(ST_SIGN) for d in DIMS}
     by = {}
     for n, (d, k) in sorted(names.items()):
